@@ -66,6 +66,18 @@ THEOREMS = [
     "Nix.C04.delete_step_gone",
     "Nix.C04.history4_delete",
     "Nix.C04.dimLink_after_delete",
+    "Nix.C04.delete_by_object",
+    "Nix.C04.delete_by_object_any_container",
+    "Nix.C04.delete_by_object_wrong_class",
+    "Nix.C04.delete_by_object_others_stay",
+    "Nix.C04.delete_by_object_subtree_others_stay",
+    "Nix.C04.delete_by_key_member",
+    "Nix.C04.delete_by_name_member",
+    "Nix.C04.delete_gone_contains",
+    "Nix.C04.unlink_by_object",
+    "Nix.C04.unlink_by_object_not_linked",
+    "Nix.C04.history5_delete",
+    "Nix.C04.history5_delete_exact",
 ]
 ASSUMPTIONS = [
     "every reference nixio keeps to an entity is an HDF5 hard link (owning container entry, link-list entry, role "
